@@ -1,6 +1,6 @@
 CHECK = dict(
     level='model_checking', engine='vsched',
-    parts=[dict(name='c04', src=['harness/c04_messageq.c'], workers=16,
+    parts=[dict(name='c04', src=['harness/c04_messageq.c'], workers=64,
                 objs=[('@VERIF@/harness/c04_scn.c', ['-fsanitize=thread'])],
                 deadline=dict(quick=120, thorough=1500))],
     rule='stateless exploration of every schedule of the real messageq.c (compiled with -fsanitize=thread against the '
